@@ -15,6 +15,10 @@
    It fails on the recorded input class (known_findings.txt; Refuted/C01_amp_bound.v): a bright, coarsely sampled, off-centre source
    violates `amp (1 - 1.05 g) <= innerclip rms`, the upper bound of the amplitude then excludes the truth, and the reported peak is
    1.05 g x truth with flags = 0.  C01_truth_within_bounds_partial derives that condition; C01_recovery carries it (in_box).
+   Two more recorded input classes, both faint (S/N 5 - 6) elongated sources: (a) the island-size cap of sx / sy
+   (hypothesis `c_sx c <= (Rmax xsize ysize + 1) * sqrt 2 * FWHM2CC` of C01_truth_within_bounds_partial) excludes the true major axis when
+   the island is shorter than the source (Refuted/C01_shape_cap.v); (b) an island at most 2 pixels across is not given the
+   six-parameter fit at all (flag FIXED2PSF) - outside the model: C01_recovery is about summits that ARE fitted with all six parameters.
    "EXACTLY ONE COMPONENT" IS NOT A THEOREM HERE: C01_recovery is per summit, and the number of summits of an island is validated by
    execution only, for sources whose summit region (pixels of negative curvature above the outer clip) is one 4-connected region, i.e.
    whose sampled image has a single 3x3 local maximum.  Otherwise (second recorded finding, replayed by tools/harness/c01.py: an exact
